@@ -315,6 +315,7 @@ fn act_sig(a: &Act) -> u64 {
                     Unit::Count { affected, last_id } => {
                         parts.push(1 + ((size_class(*affected as usize) as u64) << 4) + ((size_class(*last_id as usize) as u64) << 8))
                     }
+                    Unit::BulkRows { n } => parts.push(3 + ((64 - n.leading_zeros() as u64) << 4)),
                     Unit::Rows(r) => {
                         parts.push(
                             2 + ((r.cols.len() as u64) << 4)
